@@ -242,6 +242,18 @@ int reproc_start(reproc_t *process,
   }
 
 finish:
+#ifndef _WIN32
+  if (r == 0) {
+    // In the forked child the endpoints have been installed as its standard
+    // streams. An endpoint that was created on descriptor 0, 1 or 2 (because the
+    // parent runs with that descriptor closed) is that standard stream itself:
+    // closing it below would close the child's stdin, stdout or stderr.
+    child.in = child.in <= 2 ? HANDLE_INVALID : child.in;
+    child.out = child.out <= 2 ? HANDLE_INVALID : child.out;
+    child.err = child.err <= 2 ? HANDLE_INVALID : child.err;
+  }
+#endif
+
   // Either an error has ocurred or the child pipe endpoints have been copied to
   // the stdin/stdout/stderr streams of the child process. Either way, they can
   // be safely closed.
